@@ -28,7 +28,12 @@ func main() {
 	}
 	in := bufio.NewScanner(os.Stdin)
 	in.Buffer(make([]byte, 1<<20), 1<<26)
-	out := bufio.NewWriterSize(os.Stdout, 1<<16)
+	// library code prints to os.Stdout (e.g. key.Save); keep the protocol stream clean
+	realOut := os.Stdout
+	if dn, err := os.OpenFile(os.DevNull, os.O_WRONLY, 0); err == nil {
+		os.Stdout = dn
+	}
+	out := bufio.NewWriterSize(realOut, 1<<16)
 	defer out.Flush()
 	e(os.Args[2:], in, out)
 }
@@ -44,3 +49,27 @@ func safely(f func() string) (res string) {
 }
 
 func fields(line string) []string { return strings.Fields(line) }
+
+// splitmix64, same as vlib/core.py Rng
+type rng struct{ s uint64 }
+
+func (r *rng) next() uint64 {
+	r.s += 0x9E3779B97F4A7C15
+	z := r.s
+	z = (z ^ (z >> 30)) * 0xBF58476D1CE4E5B9
+	z = (z ^ (z >> 27)) * 0x94D049BB133111EB
+	return z ^ (z >> 31)
+}
+func (r *rng) below(n int) int {
+	if n <= 0 {
+		return 0
+	}
+	return int(r.next() % uint64(n))
+}
+func (r *rng) bytes(n int) []byte {
+	b := make([]byte, n)
+	for i := range b {
+		b[i] = byte(r.next())
+	}
+	return b
+}
